@@ -3,14 +3,13 @@ use nom::combinator::{map, map_res, opt};
 use nom::multi::{many0, many1, separated_list0, separated_list1};
 use nom::sequence::{delimited, preceded, tuple};
 
-use crate::expression::Expression;
 use crate::instruction::{
     Arithmetic, ArithmeticOperator, BinaryLogic, BinaryOperator, CalibrationDefinition,
     CalibrationIdentifier, Call, Capture, CircuitDefinition, Comparison, ComparisonOperator,
     Convert, Declaration, DefGateSequence, Delay, Exchange, Fence, FrameDefinition, GateDefinition,
     GateSpecification, GateType, Include, Instruction, Jump, JumpUnless, JumpWhen, Label, Load,
     MeasureCalibrationDefinition, MeasureCalibrationIdentifier, Measurement, Move, PauliSum,
-    Pragma, PragmaArgument, Pulse, Qubit, RawCapture, Reset, SetFrequency, SetPhase, SetScale,
+    Pragma, PragmaArgument, Pulse, RawCapture, Reset, SetFrequency, SetPhase, SetScale,
     ShiftFrequency, ShiftPhase, Store, SwapPhases, Target, UnaryLogic, UnaryOperator,
     UnresolvedCallArgument, ValidationError, Waveform, WaveformDefinition,
 };
@@ -18,7 +17,7 @@ use crate::instruction::{
 use crate::parser::common::parse_sequence_elements;
 use crate::parser::instruction::parse_block;
 use crate::parser::InternalParserResult;
-use crate::{real, token};
+use crate::token;
 
 use super::common::{parse_memory_reference_with_brackets, parse_variable_qubit};
 use super::{
@@ -373,17 +372,26 @@ pub(crate) fn parse_defcircuit<'a>(
 
 /// Parse the contents of a `DELAY` instruction.
 pub(crate) fn parse_delay<'a>(input: ParserInput<'a>) -> InternalParserResult<'a, Instruction> {
-    let (input, mut qubits) = many0(parse_qubit)(input)?;
+    // Remember where each qubit started, so that the last one can be re-read as the duration.
+    let mut qubits = Vec::new();
+    let mut qubit_starts = Vec::new();
+    let mut input = input;
+    while let Ok((remainder, qubit)) = parse_qubit(input) {
+        qubit_starts.push(input);
+        qubits.push(qubit);
+        input = remainder;
+    }
     let (input, frame_names) = many0(token!(String(v)))(input)?;
-    // If there is no intervening frame name and the delay is an integer, it will have been parsed
-    // as a qubit. We check for and correct that condition here.
+    // If there is no intervening frame name, a duration that starts with an integer or an
+    // identifier (`DELAY 0 100`, `DELAY 0 theta[0]`) will have been parsed as a qubit. We check for
+    // and correct that condition here by re-reading the last "qubit" as the duration expression.
     let (input, duration) = parse_expression(input).or_else(|e| {
-        if let Some(Qubit::Fixed(index)) = qubits.last() {
-            let duration = *index as f64;
-            qubits.pop();
-            Ok((input, Expression::Number(real!(duration))))
-        } else {
-            Err(e)
+        match (frame_names.is_empty(), qubit_starts.pop()) {
+            (true, Some(duration_start)) => {
+                qubits.pop();
+                parse_expression(duration_start)
+            }
+            _ => Err(e),
         }
     })?;
 
